@@ -108,17 +108,20 @@ func ruleA1(c *Ctx) {
 			continue
 		}
 		// the outermost loop containing the Reset call must be left before the Accumulate loop is entered
-		loops := fi.loops()
+		// the outermost natural loop containing the block (the accumulator loops are nested two deep)
 		loopOf := func(b *ssa.BasicBlock) []int {
-			var best []int
-			for _, l := range loops {
-				for _, bi := range l {
-					if bi == b.Index && len(l) > len(best) {
-						best = l
-					}
+			var best map[int]bool
+			for _, l := range fi.naturalLoops() {
+				if l.blocks[b.Index] && len(l.blocks) > len(best) {
+					best = l.blocks
 				}
 			}
-			return best
+			var out []int
+			for bi := range best {
+				out = append(out, bi)
+			}
+			sort.Ints(out)
+			return out
 		}
 		okOrder := true
 		for _, r := range resets {
